@@ -1154,33 +1154,544 @@ pub fn gen_srv(rng: &mut Rng, prop: &str) -> Script {
     Script { ops, ..cfg }
 }
 
+// ------------------------------------------------------------------------------- chains (C04)
+//
+// Real chains of depth 1..3: node i = a client (`client::new`) whose dispatch talks over an
+// in-memory transport to a `BaseChannel::requests()` server; the handler of server i makes a
+// nested call on client i+1 with its own context; the last handler waits until the script lets it
+// finish.  Everything is polled by hand, wake-driven (`w` polls every task whose real waker fired
+// until none is woken).  Script: `chain,n=<depth>|tok ...` with
+//   call  head issues a call        head  poll the head call        x  head abandons its call
+//   d<i> s<i> h<i>   poll dispatch / request stream / handler futures of node i (1-based)
+//   w     run to quiescence         t<ms> advance the clock         leaf  the last handler may finish
+
+#[derive(Clone, Debug, PartialEq)]
+pub enum COp {
+    Call,
+    Head,
+    Abandon,
+    Dispatch(usize),
+    Server(usize),
+    Handlers(usize),
+    Wake,
+    Advance(u64),
+    Leaf,
+}
+
+#[derive(Clone, Debug)]
+pub struct ChainScript {
+    pub depth: usize,
+    pub ops: Vec<COp>,
+}
+
+pub fn parse_chain(line: &str) -> Option<ChainScript> {
+    let (cfg, rest) = line.trim().split_once('|')?;
+    let depth: usize = cfg.strip_prefix("chain,n=")?.parse().ok()?;
+    if depth == 0 || depth > 4 {
+        return None;
+    }
+    let mut ops = vec![];
+    for t in rest.split_whitespace() {
+        ops.push(match t {
+            "call" => COp::Call,
+            "head" => COp::Head,
+            "x" => COp::Abandon,
+            "w" => COp::Wake,
+            "leaf" => COp::Leaf,
+            _ => {
+                let (h, a) = t.split_at(1);
+                match h {
+                    "d" => COp::Dispatch(a.parse().ok()?),
+                    "s" => COp::Server(a.parse().ok()?),
+                    "h" => COp::Handlers(a.parse().ok()?),
+                    "t" => COp::Advance(a.parse().ok()?),
+                    _ => return None,
+                }
+            }
+        });
+    }
+    Some(ChainScript { depth, ops })
+}
+
+pub fn show_chain(s: &ChainScript) -> String {
+    let toks: Vec<String> = s
+        .ops
+        .iter()
+        .map(|o| match o {
+            COp::Call => "call".into(),
+            COp::Head => "head".into(),
+            COp::Abandon => "x".into(),
+            COp::Wake => "w".into(),
+            COp::Leaf => "leaf".into(),
+            COp::Dispatch(i) => format!("d{i}"),
+            COp::Server(i) => format!("s{i}"),
+            COp::Handlers(i) => format!("h{i}"),
+            COp::Advance(d) => format!("t{d}"),
+        })
+        .collect();
+    format!("chain,n={}|{}", s.depth, toks.join(" "))
+}
+
+struct CRec {
+    node: usize,
+    events: Rc<RefCell<Vec<String>>>,
+    started: bool,
+    completed: bool,
+}
+
+struct Recorded<F> {
+    inner: Pin<Box<F>>,
+    rec: CRec,
+}
+
+impl<F: Future> Future for Recorded<F> {
+    type Output = F::Output;
+    fn poll(mut self: Pin<&mut Self>, cx: &mut Context<'_>) -> Poll<F::Output> {
+        if !self.rec.started {
+            self.rec.started = true;
+            let n = self.rec.node;
+            self.rec.events.borrow_mut().push(format!("CStart {n}"));
+        }
+        let r = self.inner.as_mut().poll(cx);
+        if r.is_ready() {
+            self.rec.completed = true;
+            let n = self.rec.node;
+            self.rec.events.borrow_mut().push(format!("CDone {n}"));
+        }
+        r
+    }
+}
+
+impl<F> Drop for Recorded<F> {
+    fn drop(&mut self) {
+        if self.rec.started && !self.rec.completed {
+            self.rec.events.borrow_mut().push(format!("CDrop {}", self.rec.node));
+        }
+    }
+}
+
+struct LeafWait {
+    done: Rc<RefCell<(bool, Option<std::task::Waker>)>>,
+    v: u64,
+}
+
+impl Future for LeafWait {
+    type Output = Result<u64, ServerError>;
+    fn poll(self: Pin<&mut Self>, cx: &mut Context<'_>) -> Poll<Self::Output> {
+        let mut d = self.done.borrow_mut();
+        if d.0 {
+            Poll::Ready(Ok(self.v))
+        } else {
+            d.1 = Some(cx.waker().clone());
+            Poll::Pending
+        }
+    }
+}
+
+type CTr = tarpc::transport::channel::UnboundedChannel<ClientMessage<u64>, Response<u64>>;
+type CServer = Requests<BaseChannel<u64, u64, CTr>>;
+type BoxFut<T> = Pin<Box<dyn Future<Output = T>>>;
+
+pub fn run_chain(s: &ChainScript) -> (Vec<Vec<String>>, Vec<String>) {
+    use tarpc::client;
+    vclock::reset();
+    let rt = vclock::runtime();
+    let _g = rt.enter();
+    let n = s.depth;
+    let events: Rc<RefCell<Vec<String>>> = Rc::new(RefCell::new(vec![]));
+    let leaf = Rc::new(RefCell::new((false, None::<std::task::Waker>)));
+    let mut clients: Vec<client::Channel<u64, u64>> = vec![];
+    let mut dispatches: Vec<(Option<BoxFut<bool>>, TaskWaker)> = vec![];
+    let mut servers: Vec<(Option<Pin<Box<CServer>>>, TaskWaker)> = vec![];
+    let mut handlers: Vec<Vec<(Option<BoxFut<()>>, TaskWaker)>> = vec![];
+    for _ in 0..n {
+        let (ctx, stx) = tarpc::transport::channel::unbounded();
+        let nc = client::new(client::Config::default(), ctx);
+        clients.push(nc.client);
+        let d = nc.dispatch;
+        dispatches.push((Some(Box::pin(async move { d.await.is_ok() })), TaskWaker::new()));
+        servers.push((Some(Box::pin(BaseChannel::with_defaults(stx).requests())), TaskWaker::new()));
+        handlers.push(vec![]);
+    }
+    let mut head: Option<BoxFut<Result<u64, tarpc::client::RpcError>>> = None;
+    let head_w = TaskWaker::new();
+    let mut obs: Vec<Vec<String>> = vec![];
+    let mut tags: BTreeSet<String> = BTreeSet::new();
+    tags.insert("chain".into());
+    tags.insert(format!("chain-depth{n}"));
+    let mut abandoned = false;
+
+    // one poll of each kind; returns whether something was polled
+    macro_rules! poll_head {
+        () => {{
+            if let Some(f) = head.as_mut() {
+                head_w.take();
+                let mut cx = Context::from_waker(&head_w.waker);
+                if let Poll::Ready(r) = f.as_mut().poll(&mut cx) {
+                    events.borrow_mut().push(if r.is_ok() { "CHeadOk".into() } else { "CHeadErr".into() });
+                    tags.insert(if r.is_ok() { "chain-head-ok".into() } else { "chain-head-err".into() });
+                    head = None;
+                }
+            }
+        }};
+    }
+    let poll_dispatch = |i: usize, dispatches: &mut Vec<(Option<BoxFut<bool>>, TaskWaker)>| {
+        let (f, w) = &mut dispatches[i];
+        if let Some(fut) = f.as_mut() {
+            w.take();
+            let mut cx = Context::from_waker(&w.waker);
+            if fut.as_mut().poll(&mut cx).is_ready() {
+                *f = None;
+            }
+        }
+    };
+    let poll_server = |i: usize,
+                       servers: &mut Vec<(Option<Pin<Box<CServer>>>, TaskWaker)>,
+                       handlers: &mut Vec<Vec<(Option<BoxFut<()>>, TaskWaker)>>,
+                       clients: &Vec<client::Channel<u64, u64>>| {
+        let (st, w) = &mut servers[i];
+        w.take();
+        loop {
+            let Some(stream) = st.as_mut() else { break };
+            let mut cx = Context::from_waker(&w.waker);
+            match stream.as_mut().poll_next(&mut cx) {
+                Poll::Ready(Some(Ok(ifr))) => {
+                    let ev = events.clone();
+                    let fut: BoxFut<()> = if i + 1 < n {
+                        let c = clients[i + 1].clone();
+                        Box::pin(ifr.execute(serve(move |ctx: context::Context, req: u64| Recorded {
+                            inner: Box::pin(async move {
+                                c.call(ctx, req + 1)
+                                    .await
+                                    .map_err(|e| ServerError::new(std::io::ErrorKind::Other, e.to_string()))
+                            }),
+                            rec: CRec { node: i + 1, events: ev, started: false, completed: false },
+                        })))
+                    } else {
+                        let l = leaf.clone();
+                        Box::pin(ifr.execute(serve(move |_ctx: context::Context, req: u64| Recorded {
+                            inner: Box::pin(LeafWait { done: l, v: req }),
+                            rec: CRec { node: i + 1, events: ev, started: false, completed: false },
+                        })))
+                    };
+                    handlers[i].push((Some(fut), TaskWaker::new()));
+                }
+                Poll::Ready(Some(Err(_))) | Poll::Ready(None) => {
+                    *st = None;
+                }
+                Poll::Pending => break,
+            }
+        }
+    };
+    let poll_handlers = |i: usize, handlers: &mut Vec<Vec<(Option<BoxFut<()>>, TaskWaker)>>, only_woken: bool| -> bool {
+        let mut any = false;
+        for (f, w) in handlers[i].iter_mut() {
+            if let Some(fut) = f.as_mut() {
+                if only_woken && !w.woken() {
+                    continue;
+                }
+                any = true;
+                w.take();
+                let mut cx = Context::from_waker(&w.waker);
+                if fut.as_mut().poll(&mut cx).is_ready() {
+                    *f = None;
+                }
+            }
+        }
+        any
+    };
+
+    for op in &s.ops {
+        match op {
+            COp::Call => {
+                if head.is_none() {
+                    let c = clients[0].clone();
+                    head = Some(Box::pin(async move { c.call(context::current(), 1).await }));
+                    head_w.flag.0.store(true, std::sync::atomic::Ordering::SeqCst);
+                }
+            }
+            COp::Head => poll_head!(),
+            COp::Abandon => {
+                if head.take().is_some() {
+                    abandoned = true;
+                    tags.insert("chain-abandon".into());
+                    let started = events.borrow().iter().filter(|e| e.starts_with("CStart")).count()
+                        + obs.iter().flatten().filter(|e| e.starts_with("CStart")).count();
+                    tags.insert(format!("chain-abandon-after-{started}-handlers-started"));
+                }
+            }
+            COp::Dispatch(i) if *i >= 1 && *i <= n => poll_dispatch(*i - 1, &mut dispatches),
+            COp::Server(i) if *i >= 1 && *i <= n => poll_server(*i - 1, &mut servers, &mut handlers, &clients),
+            COp::Handlers(i) if *i >= 1 && *i <= n => {
+                poll_handlers(*i - 1, &mut handlers, false);
+            }
+            COp::Leaf => {
+                let mut l = leaf.borrow_mut();
+                l.0 = true;
+                if let Some(w) = l.1.take() {
+                    w.wake();
+                }
+                tags.insert("chain-leaf-finishes".into());
+            }
+            COp::Advance(d) => {
+                vclock::advance(&rt, Duration::from_millis(*d));
+                if *d >= 10_000 {
+                    tags.insert("chain-deadline-passes".into());
+                }
+            }
+            COp::Wake => {
+                for _round in 0..400 {
+                    let mut any = false;
+                    if head.is_some() && head_w.woken() {
+                        any = true;
+                        poll_head!();
+                    }
+                    for i in 0..n {
+                        if dispatches[i].0.is_some() && dispatches[i].1.woken() {
+                            any = true;
+                            poll_dispatch(i, &mut dispatches);
+                        }
+                        if servers[i].0.is_some() && servers[i].1.woken() {
+                            any = true;
+                            poll_server(i, &mut servers, &mut handlers, &clients);
+                        }
+                        if poll_handlers(i, &mut handlers, true) {
+                            any = true;
+                        }
+                    }
+                    if !any {
+                        break;
+                    }
+                }
+                if abandoned {
+                    tags.insert("chain-quiescent-after-abandon".into());
+                }
+            }
+            _ => {}
+        }
+        let mut o: Vec<String> = std::mem::take(&mut *events.borrow_mut());
+        let g: Vec<String> = servers
+            .iter()
+            .map(|(st, _)| st.as_ref().map(|r| r.channel().verif_gauges().0).unwrap_or(0).to_string())
+            .collect();
+        o.push(format!("CGauges {}", coq_list(&g)));
+        obs.push(o);
+    }
+    // teardown without recording further events
+    events.borrow_mut().clear();
+    drop(head);
+    handlers.clear();
+    servers.clear();
+    dispatches.clear();
+    clients.clear();
+    events.borrow_mut().clear();
+    drop(_g);
+    drop(rt);
+    vclock::off();
+    (obs, tags.into_iter().collect())
+}
+
+pub fn chain_to_case(s: &ChainScript) -> Case {
+    let (obs, tags) = run_chain(s);
+    let ops: Vec<String> = s
+        .ops
+        .iter()
+        .map(|o| match o {
+            COp::Call => "KCall".into(),
+            COp::Head => "KHead".into(),
+            COp::Abandon => "KAbandon".into(),
+            COp::Wake => "KWake".into(),
+            COp::Leaf => "KLeaf".into(),
+            COp::Dispatch(i) => format!("KDispatch {i}"),
+            COp::Server(i) => format!("KServer {i}"),
+            COp::Handlers(i) => format!("KHandlers {i}"),
+            COp::Advance(d) => format!("KAdvance {d}"),
+        })
+        .collect();
+    let obs: Vec<String> = obs.iter().map(|l| coq_list(l)).collect();
+    Case { cfg: format!("{}", s.depth), ops: coq_list(&ops), obs: coq_list(&obs), tags, nops: s.ops.len() }
+}
+
+pub fn gen_chain(rng: &mut Rng) -> ChainScript {
+    let depth = rng.range(1, 3) as usize;
+    let mut ops = vec![COp::Call];
+    // propagate the request some way down the chain: a prefix of the pipeline order
+    let mut pipeline = vec![COp::Head, COp::Dispatch(1)];
+    for i in 1..=depth {
+        pipeline.push(COp::Server(i));
+        pipeline.push(COp::Handlers(i));
+        if i < depth {
+            pipeline.push(COp::Dispatch(i + 1));
+        }
+    }
+    match rng.weighted(&[50, 30, 20]) {
+        0 => {
+            let k = rng.range(0, pipeline.len() as u64) as usize;
+            ops.extend(pipeline[..k].iter().cloned());
+        }
+        1 => ops.push(COp::Wake),
+        _ => {
+            let k = rng.range(0, pipeline.len() as u64) as usize;
+            ops.extend(pipeline[..k].iter().cloned());
+            if rng.chance(1, 2) {
+                ops.push(COp::Wake);
+            }
+        }
+    }
+    match rng.weighted(&[70, 12, 10, 8]) {
+        0 => {
+            ops.push(COp::Abandon);
+            ops.push(COp::Wake);
+        }
+        1 => {
+            // the chain completes; abandoning afterwards changes nothing
+            ops.push(COp::Wake);
+            ops.push(COp::Leaf);
+            ops.push(COp::Wake);
+            ops.push(COp::Abandon);
+            ops.push(COp::Wake);
+        }
+        2 => {
+            // the deadline (10 s) passes instead: every server aborts on its own
+            ops.push(COp::Wake);
+            ops.push(COp::Advance(10_001));
+            ops.push(COp::Wake);
+        }
+        _ => {
+            // abandon in the middle of the completion wave
+            ops.push(COp::Wake);
+            ops.push(COp::Leaf);
+            let k = rng.range(0, 4);
+            for _ in 0..k {
+                let i = rng.range(1, depth as u64) as usize;
+                ops.push(rng.pick(&[COp::Handlers(i), COp::Server(i), COp::Dispatch(i)]).clone());
+            }
+            ops.push(COp::Abandon);
+            ops.push(COp::Wake);
+        }
+    }
+    ChainScript { depth, ops }
+}
+
 // ------------------------------------------------------------------------------- script kinds
 
 pub enum AnyScript {
     Srv(Script),
+    Chain(ChainScript),
 }
 
 pub fn parse_any(line: &str) -> Option<AnyScript> {
-    parse(line).map(AnyScript::Srv)
+    if line.trim_start().starts_with("chain,") {
+        parse_chain(line).map(AnyScript::Chain)
+    } else {
+        parse(line).map(AnyScript::Srv)
+    }
 }
 
 pub fn show(s: &AnyScript) -> String {
     match s {
         AnyScript::Srv(s) => show_srv(s),
+        AnyScript::Chain(s) => show_chain(s),
     }
 }
 
 pub fn any_to_case(s: &AnyScript) -> Case {
     match s {
         AnyScript::Srv(s) => to_case(s),
+        AnyScript::Chain(s) => chain_to_case(s),
     }
 }
 
 pub fn gen(rng: &mut Rng, prop: &str) -> AnyScript {
-    AnyScript::Srv(gen_srv(rng, prop))
+    if prop.eq_ignore_ascii_case("c04chain") {
+        AnyScript::Chain(gen_chain(rng))
+    } else {
+        AnyScript::Srv(gen_srv(rng, prop))
+    }
 }
 
-pub fn sweep(_prop: &str, mut _f: impl FnMut(AnyScript)) {}
+/// Bounded-exhaustive families (thorough tier): every script of exactly `len` ops over a small
+/// per-property alphabet, for a few configurations; for chains: every depth x every propagation
+/// prefix x every ending.
+pub fn sweep(prop: &str, mut f: impl FnMut(AnyScript)) {
+    if prop.eq_ignore_ascii_case("c04chain") {
+        for depth in 1..=3usize {
+            let mut pipeline = vec![COp::Head, COp::Dispatch(1)];
+            for i in 1..=depth {
+                pipeline.push(COp::Server(i));
+                pipeline.push(COp::Handlers(i));
+                if i < depth {
+                    pipeline.push(COp::Dispatch(i + 1));
+                }
+            }
+            for k in 0..=pipeline.len() {
+                for ending in 0..4 {
+                    let mut ops = vec![COp::Call];
+                    ops.extend(pipeline[..k].iter().cloned());
+                    match ending {
+                        0 => ops.extend([COp::Abandon, COp::Wake]),
+                        1 => ops.extend([COp::Wake, COp::Abandon, COp::Wake]),
+                        2 => ops.extend([COp::Wake, COp::Leaf, COp::Wake, COp::Abandon, COp::Wake]),
+                        _ => ops.extend([COp::Wake, COp::Advance(10_001), COp::Wake]),
+                    }
+                    f(AnyScript::Chain(ChainScript { depth, ops }));
+                }
+            }
+        }
+        return;
+    }
+    let r = |id: u64, dl: u64, body: u64| Op::Req { id, dl, tr: 1, body };
+    let (cfgs, alpha, len): (Vec<(Option<usize>, usize, usize, bool)>, Vec<Op>, usize) = match bias_of(prop) {
+        Bias::C12 => (
+            vec![(Some(1), 1, 0, true), (Some(0), 1, 0, true)],
+            vec![r(1, 1000, 1), r(2, 1000, 2), Op::Cancel { id: 1, tr: 1 }, Op::Poll, Op::HPoll(0, Step::Finish(7)), Op::SetReady(false), Op::SetReady(true)],
+            5,
+        ),
+        Bias::C06 => (
+            vec![(None, 1, 0, true), (Some(1), 1, 0, true)],
+            vec![r(1, 100, 1), Op::Poll, Op::HPoll(0, Step::Run), Op::Advance(99), Op::Advance(1), Op::SetReady(false), Op::SetReady(true)],
+            5,
+        ),
+        Bias::C14 => (
+            vec![(None, 1, 1, true), (None, 1, 1, false), (Some(1), 1, 1, false)],
+            vec![r(1, 1000, 1), Op::Poll, Op::HPoll(0, Step::Finish(7)), Op::SetReady(false), Op::SetReady(true), Op::SetFlush(false), Op::Drain(1)],
+            5,
+        ),
+        Bias::C09 | Bias::C10 => (
+            vec![(None, 1, 0, true)],
+            vec![r(1, 1000, 1), Op::Poll, Op::HPoll(0, Step::Finish(7)), Op::Eof, Op::Fail(Method::Flush), Op::Fail(Method::Next), Op::DropChan],
+            5,
+        ),
+        Bias::C11 => (
+            vec![(None, 1, 0, true), (Some(1), 1, 0, true)],
+            vec![r(1, 100, 1), Op::Poll, Op::HPoll(0, Step::Finish(7)), Op::DropH(0), Op::DropY(0), Op::Advance(100), Op::Cancel { id: 1, tr: 1 }],
+            5,
+        ),
+        _ => (
+            vec![(None, 1, 0, true), (None, 2, 0, true)],
+            vec![r(1, 1000, 1), r(1, 1000, 2), Op::Cancel { id: 1, tr: 1 }, Op::Poll, Op::HPoll(0, Step::Finish(7)), Op::HPoll(1, Step::Run), Op::SetReady(false)],
+            5,
+        ),
+    };
+    for (limit, buf, cap, coupled) in cfgs {
+        let mut idx = vec![0usize; len];
+        'outer: loop {
+            f(AnyScript::Srv(Script { limit, buf, cap, coupled, ops: idx.iter().map(|&i| alpha[i].clone()).collect() }));
+            let mut p = 0;
+            loop {
+                if p == len {
+                    break 'outer;
+                }
+                idx[p] += 1;
+                if idx[p] < alpha.len() {
+                    break;
+                }
+                idx[p] = 0;
+                p += 1;
+            }
+        }
+    }
+}
 
 #[allow(dead_code)]
 fn unused(_: BTreeMap<u8, u8>) {}
